@@ -83,8 +83,8 @@ pub open spec fn map_ok(m: MapB, w: MapW) -> bool {
     &&& htx_count(m.hb) < 0xffff_ffff_ffff_ffff
 }
 
-/// machine-arithmetic hypothesis of the mutators: the data files are smaller than 2^60 bytes
-pub open spec fn small(m: MapB) -> bool { m.kb.len() <= 0x1000_0000_0000_0000 && m.vb.len() <= 0x1000_0000_0000_0000 }
+/// machine-arithmetic hypothesis of the mutators: the data files are smaller than 2^60 bytes, fewer than 2^64-2 entries
+pub open spec fn small(m: MapB) -> bool { m.kb.len() <= 0x1000_0000_0000_0000 && m.vb.len() <= 0x1000_0000_0000_0000 && htx_count(m.hb) < 0xffff_ffff_ffff_fffe }
 
 /// the ideal map represented by the files: domain predicate and value function
 pub open spec fn has_key(w: MapW, k: Seq<u8>) -> bool { exists|o: nat| #[trigger] is_key(w.kw, o) && kkey(w.kw, o) == k }
